@@ -291,6 +291,7 @@ func spellingPart(run *ev.Run) int {
 			s := newSUT()
 			server := newServer(s.store, walletEnable)
 			var wdesc []string
+			validRefused := false
 			for _, e := range w {
 				if e == valid {
 					// the server has an authenticator (and a credential cache) of its own: it sees this request too
@@ -298,11 +299,18 @@ func spellingPart(run *ev.Run) int {
 					req, _ := parseRequest("POST", paths[e.path], has, user, pw)
 					current = s
 					if got := serve(server, req, origins[e.origin]); got == "status 401" {
-						ev.Fatal("spelling part: the valid request of the world was refused by the server")
+						// same reading as in the search: the credentials of a live token on an unrestricted path are admitted
+						run.Violation("refused.live-token-on-unrestricted-path", fmt.Sprintf("after %v: POST %s from %s with the credentials of the live token (user=%q) was answered 401 by the RPC server (%s)",
+							wdesc, paths[e.path], origins[e.origin], user, walletName[ci]), map[string]interface{}{"world": wdesc, "request_target": paths[e.path], "origin": origins[e.origin], "user": user, "password": pw, "server": walletName[ci]})
+						validRefused = true
+						break
 					}
 				}
 				s.apply(e)
 				wdesc = append(wdesc, e.String())
+			}
+			if validRefused {
+				continue // this world needs the server's cache entry of that request
 			}
 			current = s
 			first := wi == 0 && ci == 0
@@ -413,11 +421,13 @@ func spellingPart(run *ev.Run) int {
 	run.Set("spelling_targets_rejected_by_parser", parserRejected)
 	run.Set("spelling_respelled_targets_reaching_a_local_only_endpoint", respelledToRestricted)
 	run.Set("spelling_router_vs_decoder_disagreements", disagreements)
+	// requests were judged by where the server itself dispatches them; the decoder and the count below only say how
+	// much of the intended family the server's routing let through. Routing that differs is not a statement about
+	// admission: the part is reported capped (and violations found above keep their exit status)
 	if disagreements > 0 {
-		ev.Fatal("spelling part: the server's dispatch and the check's own path decoder disagree on %d targets, first: %s", disagreements, firstDisagreement)
-	}
-	if respelledToRestricted == 0 {
-		ev.Fatal("spelling part: no respelled target reaches a local-only endpoint - the enumeration is vacuous")
+		run.Capped(fmt.Sprintf("spelling part: could not be set up as planned: the server's dispatch and the check's own path decoder disagree on %d targets, first: %s", disagreements, firstDisagreement))
+	} else if respelledToRestricted == 0 {
+		run.Capped("spelling part: could not be set up as planned: no respelled target reaches a local-only endpoint - the enumeration is vacuous")
 	}
 	return requests
 }
